@@ -602,6 +602,15 @@ impl Engine for ApiEngine {
                         entry.1 = None;
                         out.push("ret unit".into());
                     }
+                    // the consumer goes out of scope because a panic unwinds through its owner
+                    "drop-panic" => {
+                        let c = entry.1.take();
+                        let _ = catch_unwind(AssertUnwindSafe(move || {
+                            let _held = c;
+                            std::panic::resume_unwind(Box::new("the consumer's owner panics"));
+                        }));
+                        out.push("ret unit".into());
+                    }
                     "ack" | "ack-multiple" | "nack" | "nack-multiple" | "reject" => {
                         let d = match dl_arg {
                             Some(d) => d,
